@@ -14,6 +14,7 @@
                                                Evaluate = M·v on the allocated keys (`lintrans_naive_spec`,
                                                `lintrans_bsgs_spec(_allocated)`)
     `evaluateMany_spec`, `evaluateSequential_spec`   many-on-one-input; sequential = composition, any length
+    `out_scale_spec`, `evaluateSequential_scale_reduced`  the output scale's VALUE and MODULUS (tied: `v%mod`)
     `meta_spec`, `evaluateSequential_meta(_too_few)`  output level/scale; closed form along a sequence (bgv,
                                                scales in ZMod t), error with more steps than levels
     `lintrans_keys_sufficient`                 advertised Galois elements ⊇ requested, any indices, any ratio
@@ -370,6 +371,60 @@ theorem meta_spec (t ol cl ll cs ls : Nat) :
     (outMeta t ol cl ll cs ls).1 = min ol (min cl ll) ∧
     (outMeta t ol cl ll cs ls).2 = (if t = 0 then cs * ls else cs * ls % t) := ⟨rfl, rfl⟩
 
+/-- **out_scale_spec**: the recorded output scale of `Evaluate`/`EvaluateMany` for a ciphertext whose scale carries
+    the modulus `t`: it carries `t` again and its value is the product reduced modulo `t` — the `meta_spec` value —
+    HOWEVER the transformation's scale was built: with the modulus (`params.NewScale`, `DefaultScale`), without
+    (`rlwe.NewScale(k)`), `k` below or above `t` -/
+theorem out_scale_spec (t cs ls lm : Nat) (ht : 0 < t) (ol cl ll : Nat) :
+    (outScale ⟨cs, t⟩ ⟨ls, lm⟩).mod = t ∧
+    (outScale ⟨cs, t⟩ ⟨ls, lm⟩).value = cs * ls % t ∧
+    (outScale ⟨cs, t⟩ ⟨ls, lm⟩).value = (outMeta t ol cl ll cs ls).2 ∧
+    (outScale ⟨cs, t⟩ ⟨ls, lm⟩).value < t := by
+  have h0 : t ≠ 0 := by omega
+  simp only [outScale, ScaleM.mul, outMeta, h0, if_false]
+  exact ⟨trivial, trivial, trivial, Nat.mod_lt _ ht⟩
+
+/-- the receiver matters: the product taken the other way round (`matrix.Scale.Mul(ctIn.Scale)`) with a
+    transformation scale without modulus loses the modulus and is not reduced — `Rescale`, `MatchScales`, the
+    decoder then compute with a plain integer instead of a residue -/
+theorem out_scale_receiver_matters :
+    ScaleM.mul ⟨40000, 0⟩ ⟨3, 65537⟩ = ⟨120000, 0⟩ ∧ outScale ⟨3, 65537⟩ ⟨40000, 0⟩ = ⟨54463, 65537⟩ := by decide
+
+/-- the scale along `EvaluateSequential` stays a reduced residue (its modulus is `t`: every step of `seqMeta`
+    reduces modulo `t`) -/
+theorem evaluateSequential_scale_reduced (t : Nat) (ht : 0 < t) (qmodt : List Nat) (ctLevel ctScale : Nat)
+    (lts : List (Nat × Nat)) (l sc : Nat) (h : seqMeta t qmodt ctLevel ctScale lts = some (l, sc)) : sc < t := by
+  have inv : ∀ {β : Type} (f : Option (Nat × Nat) → β → Option (Nat × Nat))
+      (_ : ∀ acc x l sc, f acc x = some (l, sc) → sc < t) (xs : List β) (acc : Option (Nat × Nat)),
+      (∀ l sc, acc = some (l, sc) → sc < t) → ∀ l sc, xs.foldl f acc = some (l, sc) → sc < t := by
+    intro β f hf xs
+    induction xs with
+    | nil => intro acc hacc l sc hh; exact hacc l sc hh
+    | cons x xs ih =>
+      intro acc _ l sc hh
+      simp only [List.foldl_cons] at hh
+      exact ih _ (fun l' sc' h' => hf acc x l' sc' h') l sc hh
+  cases lts with
+  | nil => simp [seqMeta] at h
+  | cons ls0 rest =>
+    simp only [seqMeta] at h
+    refine inv _ ?_ rest _ ?_ l sc h
+    · intro acc x l' sc' hh
+      cases acc with
+      | none => simp at hh
+      | some p =>
+        obtain ⟨lvl, s0⟩ := p
+        simp only at hh
+        split at hh
+        · exact absurd hh (by simp)
+        · simp only [Option.some.injEq, Prod.mk.injEq] at hh
+          rw [← hh.2]; exact Nat.mod_lt _ ht
+    · intro l' sc' hh
+      split at hh
+      · exact absurd hh (by simp)
+      · simp only [Option.some.injEq, Prod.mk.injEq] at hh
+        rw [← hh.2]; exact Nat.mod_lt _ ht
+
 /-! ## lazy accumulation (ciphertext layer, schedule only) -/
 
 section lazy
@@ -500,6 +555,9 @@ example : diagAt [((5 : Int), (1 : Int))] (-3) 8 = some 1 := by decide
 #print axioms lintrans_keys_sufficient
 #print axioms findBestBSGSRatio_pos
 #print axioms meta_spec
+#print axioms out_scale_spec
+#print axioms out_scale_receiver_matters
+#print axioms evaluateSequential_scale_reduced
 #print axioms at_spec
 #print axioms lazy_accumulation_no_wrap
 #print axioms lazy_accumulation_no_wrap_gen
